@@ -186,7 +186,9 @@ def make_request(cls, k, rng, projdir, corpus, big):
         e = rng.choice(['return object()', 'return {1, 2, %d}' % k, 'return 2**64', 'return lambda: %d' % k, 'return -2**63 - 1',
                         'return [1, {"deep": [object]}]', 'import sys\nreturn sys', 'return 1j', 'return {(1, 2): frozenset()}',
                         # serialisation failing with something that is not a msgpack exception
-                        'return "caf\\udce9 %d"' % k, 'x = []\nfor i in range(5000):\n    x = [x]\nreturn x',
+                        # (a list nested 5000 deep is no longer here: whether it can be serialised depends on the recursion limit of the
+                        # server process, which earlier requests on long files legitimately raise)
+                        'return "caf\\udce9 %d"' % k,
                         'return {"k": ["\\ud800"]}', 'class S(str):\n    def encode(self, *a):\n        raise RuntimeError("enc %d")\nreturn S("x")' % k,
                         'return range(%d)' % k, 'return Exception("as a value")', 'return memoryview(b"x")'
                         ] + [x % k if '%d' in x else x for x in BASEEXC])
